@@ -484,7 +484,7 @@ pub fn run(ctx: &Ctx) {
     ctx.note("grid_cases", json!(g.len()));
     ctx.enumerate("c12.grid", &idx, |i| json!({"index": i}), |i, stats| check_project(&g[*i].0, g[*i].1, stats));
     let deep = ctx.tier == crate::run::Tier::Thorough;
-    let cases = ctx.tier.pick(2000, 40000);
+    let cases = ctx.tier.pick(2000, 300000);
     ctx.search("c12.random", cases, 160, |tape, stats| {
         let (p, mode) = random_project(tape, deep);
         check_project(&p, mode, stats)
